@@ -45,7 +45,13 @@ class C08(Monitor):
                         self.fail('headers-after-trailers', 'header block after trailers', s, sid=f.sid)
                 else:
                     if pre.sent in (NONE, INFO):
-                        pass
+                        # the first block that is not informational is the final response: a block without :status
+                        # here is a trailer block sent before any response (with outbound validation on, the library
+                        # knows what it is emitting)
+                        if w.cfg[s.ep].get('validate_outbound', True) and not any(n == b':status' for n, _ in hs) \
+                                and f.headers is not None and not f.hpack_error:
+                            self.fail('trailers-before-final-headers', 'a header block without :status was emitted before any final response', s,
+                                      sid=f.sid, end_stream=f.end_stream)
                     elif pre.sent == FINAL:
                         if is_info(hs):
                             self.fail('info-after-final', 'informational response after the final response', s, sid=f.sid)
